@@ -352,11 +352,16 @@ def run_driver(engine, ops, workdir, tag, nproc=1):
         fn = os.path.join(workdir, "%s.drv.%d" % (tag, i))
         with open(fn, "w") as f:
             f.write("\n".join(part) + "\n")
-        procs.append((fn, len(part), subprocess.Popen([exe], stdin=open(fn), stdout=subprocess.PIPE,
-                                                      stderr=subprocess.PIPE, text=True)))
-    for fn, n, p in procs:
-        out, err = p.communicate()
+        # output goes to a file: a pipe would fill up and serialise the processes
+        fo = open(fn + ".out", "w")
+        procs.append((fn, len(part), fo, subprocess.Popen([exe], stdin=open(fn), stdout=fo,
+                                                          stderr=subprocess.PIPE, text=True)))
+    for fn, n, fo, p in procs:
+        _, err = p.communicate()
+        fo.close()
+        out = open(fn + ".out").read()
         os.remove(fn)
+        os.remove(fn + ".out")
         if p.returncode != 0:
             raise RuntimeError("driver failed: " + err[-2000:])
         got = out.split("\n")
